@@ -1,8 +1,9 @@
 import Usual.Common
 import Usual.C20.Trace
+import Usual.C20.Monitor
 /-! Model driver for C20: reads the event traces printed by harness/C20/h.c
     ("trace <scenario>" … event lines … "end") and prints one verdict line per trace:
-    `ok steps=<model steps> events=<n> spurious=<k>` or `reject <event index> <reason>`. -/
+    `ok steps=<model steps> events=<n> spurious=<k>` or `reject obs|int <event index> <reason>`. -/
 open Usual Usual.C20
 
 def parseWho (s : String) : Option Who :=
@@ -26,7 +27,7 @@ def parseEv (ws : List String) : Option Ev :=
   | ["lock", "W", "Q"] => some (.lockQ .w [])
   | ["lock", "W", "I"] => none
   | ["unlock", i, "I"] => do some (.unlockI (← i.toNat?))
-  | ["unlock", x, "Q"] => do some (.unlockQ (← parseWho x))
+  | ["unlock", x, "Q"] => do some (.unlockQ (← parseWho x) none)
   | ["create", i] => do some (.create (← i.toNat?))
   | ["malloc", i, _] => do some (.malloc (← i.toNat?))
   | ["signal", i] => do some (.signal (← i.toNat?))
@@ -57,21 +58,34 @@ def gaOf (tab : List (Nat × Int)) : Nat → Int := fun h =>
   | some p => p.2
   | none => 12345
 
+/-- `ok …`                      model follows the trace and all monitors hold
+    `reject obs <i> <reason>`   a property monitor fails (or crash / hang / foreign callback):
+                                concrete violation
+    `reject int <i> <reason>`   all monitors hold but the trace is not an execution of the model:
+                                the tie is broken, the property is not shown violated -/
 def verdict (a : TAcc) : String :=
+  let ga := gaOf a.tab
   match a.bad with
   | some (i, msg) =>
     -- a scenario that did not complete: the events before the time-out may already show why
     if msg.startsWith "TIMEOUT" then
-      let ga := gaOf a.tab
-      match feedAll (ga := ga) { m := Walk.start ga } 0 a.evs.reverse with
-      | .ok _ => s!"reject {i} {msg}"
-      | .error (j, m2) => s!"reject {j} {m2} (and the scenario then timed out)"
-    else s!"reject {i} {msg}"
+      let evs := annotate a.evs.reverse
+      match monAll ga {} 0 evs with
+      | .error (j, m2) => s!"reject obs {j} {m2} (and the scenario then timed out)"
+      | .ok _ =>
+        match feedAll (ga := ga) { m := Walk.start ga } 0 evs with
+        | .ok _ => s!"reject obs {i} {msg}"
+        | .error (j, m2) => s!"reject obs {j} {m2} (and the scenario then timed out)"
+    else if msg.startsWith "INT " then s!"reject int {i} {msg.drop 4}"
+    else s!"reject obs {i} {msg}"
   | none =>
-    let ga := gaOf a.tab
-    match feedAll (ga := ga) { m := Walk.start ga } 0 (a.evs.reverse ++ [Ev.fin (!a.tsan)]) with
-    | .ok v => s!"ok steps={v.m.sched.length} events={a.n} spurious={v.spurious}"
-    | .error (i, msg) => s!"reject {i} {msg}"
+    let evs := annotate (a.evs.reverse ++ [Ev.fin (!a.tsan)])
+    match monAll ga {} 0 evs with
+    | .error (j, m2) => s!"reject obs {j} {m2}"
+    | .ok _ =>
+      match feedAll (ga := ga) { m := Walk.start ga } 0 evs with
+      | .ok v => s!"ok steps={v.m.sched.length} events={a.n} spurious={v.spurious}"
+      | .error (i, msg) => s!"reject int {i} {msg}"
 
 def addLine (a : TAcc) (line : String) : TAcc :=
   if a.bad.isSome then a else
@@ -88,8 +102,8 @@ def addLine (a : TAcc) (line : String) : TAcc :=
   | "unfilled" :: _ => { a with bad := some (a.n, "event slot never filled") }
   | "note" :: rest => { a with bad := some (a.n, "a notification was delivered that is not the one requested at submission (the sigevent was read after getaddrinfo_a returned, or an unknown cookie/signal): " ++ " ".intercalate rest) }
   | "bad-op" :: _ => { a with bad := some (a.n, "bad-op") }
-  | ["lock", "W", "I"] => { a with bad := some (a.n, "a resolver thread locks a second queue mutex (two contexts)") }
-  | ["unlock", "W", "I"] => { a with bad := some (a.n, "a resolver thread unlocks a second queue mutex (two contexts)") }
+  | ["lock", "W", "I"] => { a with bad := some (a.n, "INT a resolver thread locks a second queue mutex (two contexts exist; a data race on the static is ThreadSanitizer's to report)") }
+  | ["unlock", "W", "I"] => { a with bad := some (a.n, "INT a resolver thread unlocks a second queue mutex (two contexts exist)") }
   | ["gacall", _, "-1", _, _] => { a with bad := some (a.n, "getaddrinfo called for something that is not a submitted request") }
   | _ =>
     match parseEv ws with
@@ -105,7 +119,7 @@ partial def loop (h : IO.FS.Stream) (out : IO.FS.Stream) (a : TAcc) : IO Unit :=
   match ws with
   | "trace" :: _ => loop h out { active := true }
   | ["end"] =>
-    if a.active then out.putStrLn (verdict a) else out.putStrLn "reject 0 end without trace"
+    if a.active then out.putStrLn (verdict a) else out.putStrLn "reject obs 0 end without trace"
     out.flush
     loop h out {}
   | [] => loop h out a
